@@ -1,6 +1,14 @@
 use crate::engine::{Ctx, Outcome, Report};
 use serde_json::Value;
 
+#[cfg(feature = "full")]
+pub mod c03;
+#[cfg(feature = "full")]
+pub mod c03_mut;
+#[cfg(feature = "full")]
+pub mod c02;
+#[cfg(feature = "full")]
+pub mod c13;
 pub mod c04;
 pub mod c05;
 pub mod c06;
@@ -23,6 +31,7 @@ pub struct Prop {
 }
 
 pub fn registry() -> Vec<Prop> {
+    #[allow(unused_mut)]
     let mut v = vec![
         Prop { id: "C04", run: c04::run, replay: c04::replay, rule: c04::RULE, full: false },
         Prop { id: "C05", run: c05::run, replay: c05::replay, rule: c05::RULE, full: false },
@@ -34,6 +43,12 @@ pub fn registry() -> Vec<Prop> {
         Prop { id: "C12", run: c12::run, replay: c12::replay, rule: c12::RULE, full: false },
         Prop { id: "C15", run: c15::run, replay: c15::replay, rule: c15::RULE, full: false },
     ];
+    #[cfg(feature = "full")]
+    {
+        v.push(Prop { id: "C02", run: c02::run, replay: c02::replay, rule: c02::RULE, full: true });
+        v.push(Prop { id: "C13", run: c13::run, replay: c13::replay, rule: c13::RULE, full: true });
+        v.push(Prop { id: "C03", run: c03::run, replay: c03::replay, rule: c03::RULE, full: true });
+    }
     v.sort_by_key(|p| p.id);
     v
 }
